@@ -69,7 +69,78 @@ Proof.
   assert (NE : nth_error cs (K - 1) = Some (nth (K - 1) cs (mkPeer 0 0 0))).
   { apply nth_error_nth'. rewrite Ecs, Lc. unfold K in *. lia. }
   pose proof (sorted_nth_count key cs (K - 1)%nat _ (dist own (pid p)) (sort_by_sorted key (contacts t)) NE) as Hc.
-  specialize (Hc (N.lt_eq_cases _ _ |> fun _ => H)).
+  specialize (Hc H).
   rewrite (filter_length_perm _ cs (contacts t) (sort_by_perm key (contacts t))) in Hc.
   unfold at_least_as_close in Cn. unfold key in Hc. unfold K in *. lia.
+Qed.
+
+Lemma pow2_half k w : w <= 2 ^ N.of_nat (S k) -> w - w / 2 <= 2 ^ N.of_nat k /\ w / 2 <= 2 ^ N.of_nat k.
+Proof. rewrite Nat2N.inj_succ, N.pow_succ_r'. generalize (2 ^ N.of_nat k). intros; lia. Qed.
+
+Lemma full_bucket_wide own pre b post p :
+  WF own (pre ++ b :: post) -> bucket_add b p = None -> blo b + 2 <= bhi b.
+Proof.
+  intros [C OK I Ky] A. apply bucket_add_none in A. destruct A as (_ & L).
+  pose proof (proj1 (Forall_mid _ _ _ _) OK) as (_ & (Rb & _) & _).
+  apply (full_width own b); [| exact Rb | pose proof K_ge_2; lia].
+  rewrite contacts_mid in I. eapply NoDup_map_sub; [apply sub_mid | exact I].
+Qed.
+
+Lemma add_core_progress own e : forall k fuel t p pre b post,
+  WF own t -> NC t p ->
+  find_bucket own (pid p) t = Some (pre, b, post) ->
+  bhi b - blo b <= 2 ^ N.of_nat k -> (k + 2 <= fuel)%nat ->
+  match add_core own e fuel t p with
+  | (r, _, _) => r <> ErrFuel /\ ((at_least_as_close own t p < K)%nat -> r = Ret true)
+  end.
+Proof.
+  induction k as [| k IH]; intros fuel t p pre b post W N F Wd Fu;
+    (destruct fuel as [| f]; [lia |]); cbn [add_core]; rewrite F;
+    pose proof (find_bucket_some _ _ _ _ _ _ F) as (Et & Rg & Pre);
+    (destruct (bucket_add b p) as [b' |] eqn:A; [split; [discriminate | reflexivity] |]);
+    subst t; pose proof (full_bucket_wide own pre b post p W A) as W2;
+    pose proof (bucket_add_none _ _ A) as (NoId & Full);
+    pose proof W as [C OK I Ky];
+    pose proof (proj1 (Forall_mid _ _ _ _) OK) as (_ & (Rb & Lb) & _).
+  - (* width <= 1 contradicts a full bucket *) cbn in Wd. lia.
+  - assert (Lc : (K <= length (contacts (pre ++ b :: post)))%nat).
+    { rewrite contacts_mid, !app_length. lia. }
+    destruct (should_split own (length pre) (pre ++ b :: post) (pid p)) eqn:SS.
+    + destruct (split_bucket own b) as [b1 b2] eqn:S.
+      destruct (split_wf own pre b post b1 b2 W) as (W' & P); [pose proof K_ge_2; lia | exact S |].
+      assert (N' : NC (pre ++ b1 :: b2 :: post) p).
+      { eapply NC_perm; [exact N |]. intros x Hx. eapply Permutation_in; [symmetry; exact P | exact Hx]. }
+      assert (Cnt : at_least_as_close own (pre ++ b1 :: b2 :: post) p = at_least_as_close own (pre ++ b :: post) p).
+      { unfold at_least_as_close. symmetry. apply filter_length_perm. exact P. }
+      unfold split_bucket in S. inversion S; clear S.
+      set (sp := bhi b - (bhi b - blo b) / 2) in *.
+      destruct (pow2_half k (bhi b - blo b) Wd) as (Wh1 & Wh2).
+      apply in_range_iff in Rg.
+      assert (exists pre' b' post', find_bucket own (pid p) (pre ++ b1 :: b2 :: post) = Some (pre', b', post') /\
+                                    bhi b' - blo b' <= 2 ^ N.of_nat k) as (pre' & b' & post' & F2 & Wd2).
+      { rewrite (find_bucket_app _ _ _ _ Pre). cbn [find_bucket].
+        destruct (in_range own b1 (pid p)) eqn:R1.
+        - do 3 eexists. split; [reflexivity |]. subst b1. cbn [blo bhi]. unfold sp. lia.
+        - assert (R2 : in_range own b2 (pid p) = true).
+          { apply in_range_iff. subst b2. cbn [blo bhi].
+            assert (~ (blo b1 <= dist own (pid p) < bhi b1)) by (rewrite <- in_range_iff; congruence).
+            subst b1. cbn [blo bhi] in *. lia. }
+          rewrite R2. do 3 eexists. split; [reflexivity |]. subst b2. cbn [blo bhi]. unfold sp. lia. }
+      rewrite H0, H1 in *.
+      assert (Fu' : (k + 2 <= f)%nat) by lia.
+      specialize (IH f _ p pre' b' post' W' N' F2 Wd2 Fu').
+      destruct (add_core own e f (pre ++ b1 :: b2 :: post) p) as [[r pr] t3].
+      destruct IH as (I1 & I2). rewrite Cnt in I2.
+      destruct (is_ret r); (split; [exact I1 | exact I2]).
+    + split.
+      * destruct (choose_replace e b) as [q |] eqn:CR; [| discriminate].
+        destruct (probe e q); [discriminate |].
+        destruct f as [| f']; [lia |]. cbn [add_core].
+        assert (F2 : find_bucket own (pid p) (pre ++ bucket_remove b q :: post) = Some (pre, bucket_remove b q, post)).
+        { rewrite (find_bucket_app _ _ _ _ Pre). cbn [find_bucket].
+          assert (R' : in_range own (bucket_remove b q) (pid p) = true) by exact Rg. rewrite R'.
+          rewrite app_nil_r. reflexivity. }
+        rewrite F2.
+        destruct (bucket_add_after_remove b p q NoId (choose_replace_in _ _ _ CR) Lb) as (b' & ->). discriminate.
+      * intros Cn. rewrite (should_split_true own _ _ p Lc Cn) in SS. discriminate.
 Qed.
